@@ -25,6 +25,7 @@ type sessionCfg struct {
 	Rabbit bool   `json:"rabbit"`
 	Engine string `json:"engine"` // buntdb (in memory) | badger
 	Auth   string `json:"auth,omitempty"` // password check mode: md5 (default) | bcrypt | plain
+	Disk   bool   `json:"disk,omitempty"` // buntdb on disk (sessions that restart the broker)
 	Dir    string `json:"-"`
 }
 
@@ -41,7 +42,8 @@ type stepResult struct {
 }
 
 type session struct {
-	rawSent int
+	connBase uint64 // connections opened before the last restart: the new server numbers its connections from 1 again
+	rawSent  int
 	cfg     sessionCfg
 	srv     *server.Server
 	addr    string
@@ -58,7 +60,7 @@ func init() {
 	log.SetOutput(io.Discard)
 }
 
-func newSession(cfg sessionCfg, settle time.Duration) (*session, error) {
+func serverConfig(cfg sessionCfg) (*config.Config, string, error) {
 	proto := "amqp-0-9-1"
 	if cfg.Rabbit {
 		proto = "amqp-rabbit"
@@ -71,7 +73,7 @@ func newSession(cfg sessionCfg, settle time.Duration) (*session, error) {
 	for _, u := range sessionUsers {
 		hash, err := auth.HashPassword(u[1], mode)
 		if err != nil {
-			return nil, err
+			return nil, "", err
 		}
 		users = append(users, config.User{Username: u[0], Password: hash})
 	}
@@ -87,6 +89,16 @@ func newSession(cfg sessionCfg, settle time.Duration) (*session, error) {
 	}
 	if cfg.Engine == "badger" {
 		sc.Db = config.Db{DefaultPath: cfg.Dir, Engine: config.DbEngineTypeBadger}
+	} else if cfg.Disk {
+		sc.Db = config.Db{DefaultPath: cfg.Dir, Engine: config.DbEngineTypeBuntDb}
+	}
+	return sc, proto, nil
+}
+
+func newSession(cfg sessionCfg, settle time.Duration) (*session, error) {
+	sc, proto, err := serverConfig(cfg)
+	if err != nil {
+		return nil, err
 	}
 	verifhook.Reset()
 	metrics.NewTrackRegistry(15, time.Hour, false)
@@ -95,6 +107,46 @@ func newSession(cfg sessionCfg, settle time.Duration) (*session, error) {
 		return nil, err
 	}
 	return &session{cfg: cfg, srv: srv, addr: srv.VerifAddr(), clients: map[int]*client{}, gone: map[int]bool{}, settle: settle}, nil
+}
+
+// restart stops the broker gracefully (every client connection has been dropped before) and boots a new server on
+// the same storage
+func (s *session) restart() string {
+	for id, c := range s.clients {
+		if !s.gone[id] {
+			c.close()
+			s.gone[id] = true
+		}
+	}
+	dl := time.Now().Add(5 * time.Second)
+	for time.Now().Before(dl) {
+		sn, ok := s.snapshot(false)
+		if !ok || (len(sn.Connections) == 0 && sn.Inflight == 0 && sn.Pending == 0 && sn.StorePend == 0) {
+			break
+		}
+		time.Sleep(200 * time.Microsecond)
+	}
+	done := make(chan struct{})
+	go func() { s.srv.Stop(); close(done) }()
+	select {
+	case <-done:
+	case <-time.After(20 * time.Second):
+		return "WEDGED(server stop)"
+	}
+	sc, proto, err := serverConfig(s.cfg)
+	if err != nil {
+		return err.Error()
+	}
+	verifhook.Reset()
+	metrics.NewTrackRegistry(15, time.Hour, false)
+	srv := server.NewServer("127.0.0.1", "0", proto, sc)
+	if err := srv.VerifBoot(); err != nil {
+		return "boot: " + err.Error()
+	}
+	s.srv = srv
+	s.addr = srv.VerifAddr()
+	s.connBase = uint64(s.nconn)
+	return ""
 }
 
 func (s *session) stop() {
@@ -117,7 +169,7 @@ func (s *session) stop() {
 	case <-done:
 	case <-time.After(15 * time.Second):
 	}
-	if s.cfg.Engine == "badger" && s.cfg.Dir != "" {
+	if (s.cfg.Engine == "badger" || s.cfg.Disk) && s.cfg.Dir != "" {
 		_ = os.RemoveAll(s.cfg.Dir)
 	}
 }
@@ -146,7 +198,7 @@ func (s *session) quiesce() string {
 		q := snap.Inflight == 0 && snap.Pending == 0 && snap.StorePend == 0
 		byID := map[uint64]server.VerifConnSnap{}
 		for _, cs := range snap.Connections {
-			byID[cs.ID] = cs
+			byID[cs.ID+s.connBase] = cs
 		}
 		for id, c := range s.clients {
 			cs, present := byID[uint64(id)]
@@ -220,6 +272,13 @@ func stageOf(st int) string {
 	return strconv.Itoa(st)
 }
 
+func ownerID(id, base uint64) uint64 {
+	if id == 0 {
+		return 0
+	}
+	return id + base
+}
+
 func qos4(q [4]uint64) string { return fmt.Sprintf("%d/%d/%d/%d", q[0], q[1], q[2], q[3]) }
 
 func uidOf(mid string) string {
@@ -237,6 +296,7 @@ func (s *session) render() []string {
 	}
 	var out []string
 	for _, cs := range snap.Connections {
+		cs.ID += s.connBase
 		out = append(out, fmt.Sprintf("conn %d st=%s qos=%s", cs.ID, stageOf(cs.Status), qos4(cs.Qos)))
 		for _, ch := range cs.Channels {
 			if ch.Status > 3 {
@@ -264,7 +324,7 @@ func (s *session) render() []string {
 	for _, cs := range snap.Connections {
 		for _, ch := range cs.Channels {
 			for _, cm := range ch.Consumers {
-				owner[cm.ID] = fmt.Sprintf("%d.%d", cs.ID, ch.ID)
+				owner[cm.ID] = fmt.Sprintf("%d.%d", cs.ID+s.connBase, ch.ID)
 			}
 		}
 	}
@@ -275,13 +335,14 @@ func (s *session) render() []string {
 		}
 		out = append(out, fmt.Sprintf("queue %s ready=[%s] len=%d consumers=[%s] active=%s excl=%s ad=%s dur=%s owner=%d cexcl=%s m=%d/%d/%d",
 			q.Name, strings.Join(ready, " "), q.Length, strings.Join(qcons(q.Consumers, q.ConsumerIDs, owner), " "), b2s(q.Active), b2s(q.Exclusive), b2s(q.AutoDelete),
-			b2s(q.Durable), q.ConnID, b2s(q.ConsumeExcl), q.MReady, q.MUnacked, q.MTotal))
+			b2s(q.Durable), ownerID(q.ConnID, s.connBase), b2s(q.ConsumeExcl), q.MReady, q.MUnacked, q.MTotal))
 	}
 	for _, e := range snap.Exchanges {
 		var bs []string
 		for _, b := range e.Bindings {
 			bs = append(bs, fmt.Sprintf("%s<-%s#%d", b.Queue, b.Key, b.NArgs))
 		}
+		sort.Strings(bs) // after a restart the bindings come back in storage order: compared as a set
 		out = append(out, fmt.Sprintf("exchange %s type=%d dur=%s ad=%s int=%s bindings=[%s]", e.Name, e.Type, b2s(e.Durable), b2s(e.AutoDelete),
 			b2s(e.Internal), strings.Join(bs, " ")))
 	}
@@ -347,6 +408,9 @@ func (s *session) exec(op string) string {
 	need := func(n int) bool { return len(f) >= n }
 	if f[0] == "OPEN" {
 		return s.open(atoi(f[1]))
+	}
+	if f[0] == "RESTART" {
+		return s.restart()
 	}
 	if f[0] == "ACCEPT" { // socket + protocol header only: the handshake is driven by STARTOK / TUNEOK / COPEN
 		s.nconn++
